@@ -130,8 +130,10 @@ def drive(target, calls, rec, disp_counter=None):
                 target.fail(InjectedError(c[1]))
         except InjectedError:
             raised = True
-        d = rec.log[before] if len(rec.log) > before else None
-        assert len(rec.log) - before <= 1
+        ds = rec.log[before:]
+        # one call delivers at most one callback; more than one is an observation (it shows as a correspondence mismatch and as a
+        # grammar violation in the oracle), never a harness failure
+        d = None if not ds else ds[0] if len(ds) == 1 else {"multi": ds}
         outs.append({"d": d, "r": raised, "disp": (disp_counter[0] - d0) if disp_counter else 0})
     return outs
 
@@ -211,7 +213,7 @@ def drive_raw(target, calls):
 
 def canon_model(case, out):
     if case["op"].endswith("_reentrant") and isinstance(out, list):
-        return {"seen": [o["d"] for o in out if o["d"] is not None]}
+        return {"seen": [x for o in out if o["d"] is not None for x in (o["d"]["multi"] if isinstance(o["d"], dict) else [o["d"]])]}
     return out
 
 
@@ -228,7 +230,15 @@ def oracle(case, out):
             if not grammar_ok(seq):
                 return f"subscriber {name} saw ill-formed sequence {seq}"
         return None
-    seq = out["seen"] if case["op"] in ("subscribe_script", "ado_reentrant", "obs_reentrant") else [o["d"] for o in out if o["d"] is not None]
+    if case["op"] in ("subscribe_script", "ado_reentrant", "obs_reentrant"):
+        seq = out["seen"]
+    else:
+        seq = []
+        for o in out:
+            if isinstance(o["d"], dict):
+                seq.extend(o["d"]["multi"])
+            elif o["d"] is not None:
+                seq.append(o["d"])
     if not grammar_ok(seq):
         return f"ill-formed callback sequence {seq}"
     return None
